@@ -1,0 +1,16 @@
+//go:build verif
+
+// Contracts checked by /verif/gvc (contract-based deductive verification).
+// This file contains comments only; it is compiled only under the "verif" build tag.
+
+package subscription
+
+// Interface contract of subscription.Store as seen by the broker core (session clean-up): $unsubAlls counts the
+// UnsubscribeAll calls, $lastUnsubAll is the client id of the last one.
+//@ ghost field (Store).unsubAlls int
+//@ ghost field (Store).lastUnsubAll string
+
+//@ func (Store).UnsubscribeAll
+//@ params s, clientID
+//@ modifies ghost(s.$unsubAlls), ghost(s.$lastUnsubAll)
+//@ ensures s.$unsubAlls == old(s.$unsubAlls) + 1 && s.$lastUnsubAll == clientID
